@@ -173,6 +173,7 @@ def C08(prog: Program, run: Run, tier: str) -> None:
     run.add(_only(rounding.rule_clamps(prog), "math:"), None)
     run.add(specific.rule_signrole(prog) + extra.from_bbox_origin(prog), "R-SIGNROLE edge chosen by the sign of the same-axis resolution; anchor offset removed before and restored after snapping; resolution-driven grids take their origin from snap_grid on every path")
     run.add(_only(axis.rule_axis(prog, {"geobox", "math"}), "geobox:GeoBox.from_bbox", "geobox:GeoBox.from_geopolygon", "math:snap", "math:_snap", "geobox:_norm_anchor"), AXIS_DESC)
+    run.add(extra.polygon_bbox_last(prog), "R-GUARDSEQ from_geopolygon takes the bounding box of the re-projected polygon")
     run.add(_only(specific.rule_exhaust(prog), "geobox:"), "R-EXHAUST anchor literals total, EDGE->0, CENTER->0.5, tight->floating")
     run.add(_only(_fwd(prog, {"geobox", "overlap"}), "geobox:GeoBox.from_", "geobox:GeoBox.to_crs", "geobox:GeoBox.zoom_to", "geobox:GeoBoxBase.compute_zoom_to", "overlap:compute_output_geobox", "geobox:zoom_to"), FWD_DESC)
     run.floor("R-SIGNROLE|", 8)
@@ -223,6 +224,7 @@ def C13(prog: Program, run: Run, tier: str) -> None:
     run.add([i for i in extra.tile_query(prog) if "grid_intersect" in i.construct or "_check_linear" in i.construct],
             "R-GUARDSEQ the chunk dependency graph: linear path maps each tile's own box through A and rounds outwards, general path queries with the tile's own extent")
     run.add(_fwd(prog, {"_dask", "warp"}), FWD_DESC)
+    run.add(_only(extra.explicit_beats_attribute(prog), "_xr_interop"), "R-GUARDSEQ an explicitly passed src_nodata beats the array attribute")
     run.add(axis.rule_axis(prog, {"_dask", "warp", "_blocks"}), AXIS_DESC)
     run.floor("R-FILL|", 12)
     run.floor("R-API|", 15)
@@ -242,6 +244,7 @@ def C15(prog: Program, run: Run, tier: str) -> None:
     run.add(guards.overwrite_guard(prog), "R-GUARDSEQ destination removed only under overwrite, existing file without overwrite raises, file sinks only through the checked path")
     run.add(_only(cog.rule_flow16(prog), "cog._shared:adjust", "cog._rio"), "R-FLOW16 GDAL block sizes come from adjust_blocksize(blocksize, nx|ny)")
     run.add(_fwd(prog, {"cog._rio"}), FWD_DESC)
+    run.add(_only(extra.explicit_beats_attribute(prog), "cog._rio"), "R-GUARDSEQ an explicitly passed nodata beats the array attribute")
     run.add(axis.rule_axis(prog, {"cog._rio"}), AXIS_DESC)
     run.add(api.rule_api(prog, {"cog._rio"}), "R-API")
     run.floor("R-GUARDSEQ|", 5)
@@ -255,6 +258,7 @@ def C16(prog: Program, run: Run, tier: str) -> None:
     run.add(_only(rounding.rule_round(prog, {"geom"}), "geom:BoundingBox.round"), None)
     run.add(_only(axis.rule_axis(prog, {"geobox", "geom", "math"}), "geobox:GeoBox.overlap_roi", "geobox:GeoBox.enclosing", "geobox:GeoBox.snap_to", "geobox:bounding_box", "geobox:pixel_tr", "geobox:geobox_", "geom:bbox_", "geom:BoundingBox", "math:split_translation"), AXIS_DESC)
     run.add(_only(crsguard.rule_retag(prog, {"geobox", "geom"}), "geobox:geobox_", "geobox:GeoBox.enclosing", "geom:bbox_"), "R-RETAG")
+    run.add(extra.enclosing_projection(prog), "R-GUARDSEQ enclosing derives its pixel box from the projected region, rounded outwards, on every path")
     run.floor("R-LATTICE|", 14)
     run.floor("R-GUARDSEQ|", 6)
 
